@@ -45,9 +45,15 @@ var (
 	secrets  = []string{"", "s", secret32}
 	users    = []string{"", "u", "a:b", "üñí"}
 	realms   = []string{"", "r", "pion.ly"}
-	durs     = []time.Duration{-10 * time.Second, -time.Second, 0, time.Second, 59 * time.Second, time.Hour, 100 * 24 * time.Hour}
-	phases   = []time.Duration{0, 500 * time.Millisecond, 999 * time.Millisecond}
-	kinds    = []string{"lt", "rest"}
+	// the required set {-10s,-1s,0,1s,59s,1h,100d} plus sub-second durations
+	// (the stamp is floor(now+duration)) and one that carries the stamp past 2^31.
+	durs = []time.Duration{-10 * time.Second, -time.Second, -time.Millisecond, 0, time.Millisecond, time.Second,
+		1500 * time.Millisecond, 59 * time.Second, time.Hour, 100 * 24 * time.Hour, 40 * 365 * 24 * time.Hour}
+	phases = []time.Duration{0, 500 * time.Millisecond, 999 * time.Millisecond}
+	kinds  = []string{"lt", "rest"}
+
+	thoroughPhases = []time.Duration{0, time.Millisecond, 250 * time.Millisecond, 500 * time.Millisecond,
+		750 * time.Millisecond, 998 * time.Millisecond, 999 * time.Millisecond, time.Second - time.Nanosecond}
 )
 
 // ---------------------------------------------------------------- reference
@@ -281,7 +287,11 @@ type winCase struct {
 // b, b+1ms, plus the exact expiry instant e and e-1ms, e+1ms, ascending.
 func instants(stamp, ens int64) []int64 {
 	set := map[int64]bool{ens - 1e6: true, ens: true, ens + 1e6: true}
-	for k := int64(-3); k <= 4; k++ {
+	lo, hi := int64(-3), int64(4)
+	if rep.Thorough() {
+		lo, hi = -30, 31
+	}
+	for k := lo; k <= hi; k++ {
 		b := (stamp + k) * 1e9
 		set[b-1e6], set[b], set[b+1e6] = true, true, true
 	}
@@ -303,6 +313,10 @@ func TestC17Handlers(t *testing.T) {
 	bases := baseCases()
 	r.Bound = len(bases)
 	done := true
+	phases := phases
+	if rep.Thorough() {
+		phases = thoroughPhases
+	}
 outer:
 	for bi := si; bi < len(bases); bi += sn {
 		b := bases[bi]
@@ -314,8 +328,8 @@ outer:
 					break outer
 				}
 				gns := genBase*1e9 + int64(ph)
-				ens := gns + int64(d)            // exact expiry instant
-				stamp := floorDiv(ens, 1e9)      // expiry at unix-second granularity
+				ens := gns + int64(d)       // exact expiry instant
+				stamp := floorDiv(ens, 1e9) // expiry at unix-second granularity
 				wc := winCase{baseCase: b, Dur: d.String(), PhaseMs: ph.Milliseconds(), GenNs: gns, Stamp: stamp}
 				rep.Current(wc)
 				c, pan := genAt(t, b.Kind, b.Secret, b.User, d, gns)
